@@ -674,6 +674,9 @@ class FPNum:
             if (self.infinity): return self.s
             else: return -bref.s
 
+        # +0 and -0 are equal
+        if (self.m == 0 and bref.m == 0): return 0
+
         a = FPNum(self.s, self.e, self.m, self.p)
         b = FPNum(bref.s, bref.e, bref.m, bref.p)
 
